@@ -20,7 +20,7 @@ Slack == 1               \* tolerance (ticks) for bounded-liveness clauses
 MsgEvents == {"cb_b", "cb_e", "pre_b", "pre_e", "onerr_b", "onerr_e", "post_b",
               "post_e", "postsave_b", "postsave_e", "ack", "ack_e", "dep_open",
               "dep_opened", "dep_close", "start", "end", "save_b", "save_e"}
-ErrOutcomes == {"exc", "base", "nores", "cancel", "depfail", "cerr", "falsy"}
+ErrOutcomes == {"exc", "base", "nores", "cancel", "depfail", "cerr", "falsy", "sysexit"}
 Teardown == {"gen", "agen", "cm", "acm"}
 
 Max2(a, b) == IF a >= b THEN a ELSE b
@@ -189,6 +189,7 @@ PerMsg(c, o, m, L, ev) ==
   \cup (IF (ev.e \in {"dep_open", "dep_opened", "start"} => ev.y \in {0, TidOf(c, m)}) /\ (ev.e = "start" => ev.x = m)
         THEN {} ELSE {"C06_OwnContext"})
   \cup (IF ev.e = "save_b" => ev.x = TidOf(c, m) THEN {} ELSE {"C06_ResultBinding"})
+  \cup (IF ev.e = "start" /\ ev.s # "argok" THEN {"C06_OwnArguments"} ELSE {})
   (* ---------------- C07 ---------------- *)
   \cup (IF ev.e = "save_b" THEN
           LET q == ev
@@ -201,6 +202,7 @@ PerMsg(c, o, m, L, ev) ==
              \cup (IF oc \in {"exc", "base"} /\ ~(isErr /\ errOk /\ q.s = oc) THEN {"C07_Error"} ELSE {})
              \cup (IF oc = "cerr" /\ ~(isErr /\ errOk /\ q.s = "cancel") THEN {"C07_Error"} ELSE {})
              \cup (IF oc = "falsy" /\ ~(isErr /\ errOk /\ q.s = "exc") THEN {"C07_Error"} ELSE {})
+             \cup (IF oc = "sysexit" /\ ~(isErr /\ errOk /\ q.s = "sysexit") THEN {"C07_Error"} ELSE {})
              \cup (IF oc = "cancel" /\ ~(isErr /\ q.s = "timeout") THEN {"C07_TimeoutError"} ELSE {})
              \cup (IF oc = "depfail" /\ ~(isErr /\ q.s = "depfail") THEN {"C07_Error"} ELSE {})
              \cup (IF ~lblOk THEN {"C07_Labels"} ELSE {})
@@ -302,6 +304,7 @@ Global(c, o, ev) ==
 
 RxCheck(c, o, ev) ==
   Global(c, o, ev)
+  \cup (IF ev.e = "loop_crash" THEN {"C01_WorkerCrashed", "C03_WorkerCrashed", "C07_WorkerCrashed"} ELSE {})
   \cup (IF ev.e \in MsgEvents /\ ev.m \in 1..c.M THEN PerMsg(c, o, ev.m, o.lst[ev.m], ev) ELSE {})
   \cup (IF ev.e \in MsgEvents /\ ev.m \notin 1..c.M THEN {"X_UnattributedEvent"} ELSE {})
 =============================================================================
